@@ -116,6 +116,19 @@ func runC19(c *fw.Ctx) {
 		leaves[i] = leafHash(ls[i])
 	}
 	c.Describe(map[string]any{"n": n, "leaf_width": width, "leaf_i": "sha3(\"leaf/<seed>/<n>/<i>/<k>\") hex, concatenated and cut to the width"})
+	{
+		// the tree is exported right after it was computed, before anything read its root or a path, and the copy is
+		// loaded elsewhere
+		var early, loaded util.MerkleTree
+		early.ComputeTree(leaves)
+		exp := append([]string(nil), early.GetTree()...)
+		if err := loaded.SetTree(n, exp); err != nil {
+			c.Violate("", "n=%d: SetTree(n, GetTree()) of a tree exported right after ComputeTree failed: %v", n, err)
+		} else if got, want := loaded.GetRoot(), refMerkleRoot(ls); got != want {
+			c.Violate("", "n=%d: a tree exported right after ComputeTree (before any root or path read) loads with root %q, reference %q", n, got, want)
+		}
+		c.Count("trees_exported_before_any_read", 1)
+	}
 	var mt util.MerkleTree
 	mt.ComputeTree(leaves)
 	root := mt.GetRoot()
@@ -188,6 +201,24 @@ func runC19(c *fw.Ctx) {
 		}
 		if !refVerify(ls[i], p.Nodes, i, root) {
 			c.Violate("", "n=%d i=%d: path by index does not verify under the independent verifier", n, i)
+		}
+		// a path object that has verified is filled again in place with the path of the next leaf (a caller decoding into
+		// one buffer): it now proves that leaf, and no longer this one
+		if j := (i + 1) % n; n > 1 && ls[j] != ls[i] {
+			if pj := mt.GetPathByIndex(j); pj != nil {
+				q := &util.MTPath{Nodes: append([]string(nil), p.Nodes...), LeafIndex: p.LeafIndex}
+				if !util.VerifyMerklePath(ls[i], q, root) {
+					c.Violate("", "n=%d i=%d: a copy of the path does not verify", n, i)
+				}
+				q.Nodes = append(q.Nodes[:0], pj.Nodes...)
+				q.LeafIndex = pj.LeafIndex
+				if util.VerifyMerklePath(ls[i], q, root) {
+					c.Violate("", "n=%d i=%d: a path object refilled in place with the path of leaf %d still verifies for leaf %d", n, i, j, i)
+				} else if !util.VerifyMerklePath(ls[j], q, root) {
+					c.Violate("", "n=%d i=%d: a path object refilled in place with the path of leaf %d does not verify for that leaf", n, i, j)
+				}
+				c.Count("path_objects_refilled_in_place", 1)
+			}
 		}
 		pl := mt.GetPath(leaves[i])
 		if pl == nil || pl.LeafIndex != i || !mt.VerifyPath(leaves[i], pl) {
@@ -537,7 +568,7 @@ func init() {
 		Cases:      c19Sizes,
 		Run:        runC19,
 		Exhaustive: func(string) bool { return true },
-		Floors:     map[string]int64{"trees": 1000, "trees_with_a_repeated_leaf_hash": 60, "trees_of_pointer_leaves_recomputed_after_an_edit": 60, "resized_object_paths": 20000, "downward_lookups": 20000, "trees_above_the_exhaustive_bound": 60, "trees_with_other_leaf_width": 250, "paths_verified": 500000, "other_leaf_rejections": 3000000, "settree_wrong_size_rejected": 1000, "reused_object_paths": 5000, "loaded_tree_paths_after_exporter_reuse": 3000, "paths_after_caller_edits": 3000, "concurrent_independent_tree_groups": 60},
+		Floors:     map[string]int64{"trees": 1000, "trees_exported_before_any_read": 1000, "path_objects_refilled_in_place": 400000, "trees_with_a_repeated_leaf_hash": 60, "trees_of_pointer_leaves_recomputed_after_an_edit": 60, "resized_object_paths": 20000, "downward_lookups": 20000, "trees_above_the_exhaustive_bound": 60, "trees_with_other_leaf_width": 250, "paths_verified": 500000, "other_leaf_rejections": 3000000, "settree_wrong_size_rejected": 1000, "reused_object_paths": 5000, "loaded_tree_paths_after_exporter_reuse": 3000, "paths_after_caller_edits": 3000, "concurrent_independent_tree_groups": 60},
 		Assumptions: []string{
 			"leaf hashes of one tree are distinct strings of one fixed width (64 hex in most trees, 1..200 characters in a quarter of them): the tree concatenates strings, so leaves of different widths within one tree are outside the property's domain",
 			"exhaustive over n<=N and all indices, not over all leaf values",
